@@ -13,6 +13,7 @@
 -/
 import MW.Lemmas.KvIterW
 import MW.Lemmas.KvSim
+import MW.Lemmas.KvPrefix
 namespace MW.Model.KV
 open MW MW.KV
 
@@ -246,5 +247,59 @@ theorem first_next_iff (tx : Tx) (hw : tx.readOnly = false) (b : Bucket) (st l l
     rw [hE] at hhead
     simp only [List.map_cons, List.cons_append, List.head?_cons, Option.map_some, Option.some.injEq, yielded] at hhead
     rw [← hhead]; simp
+
+/-- iterating a WHOLE bucket (`NewIterator(nil)`, as the wallet's removal does) in a transaction that
+    has so far written only to OTHER buckets or to the bucket index: the condition holds
+    (`prefix_isolated`: those keys lie outside the bucket's range) -/
+theorem rangeUntouched_other_buckets {tx : Tx} {b : Bucket} {p : Path} (hb : b.IsAt p) (lim : Bytes)
+    (hl : (b.iterBounds [] []).2 = some lim)
+    (hk : ∀ k, ((tx.b.puts.get k).isSome = true ∨ (tx.b.deletes.get k).isSome = true) →
+      (∃ q kk, NoSep q ∧ q ≠ p ∧ k = dataKey q kk) ∨ ∃ s, k = indexKey s) :
+    RangeUntouched tx (b.iterBounds [] []).1 lim := by
+  have hs : (b.iterBounds [] []).1 = dataKey p [] := by
+    simp only [Bucket.iterBounds, Bucket.innerKeyForIterator, hb.path]; rfl
+  rw [hs]
+  -- the limit is the end of the bucket's prefix range, or the range is empty
+  have hlim : lim = dataKey p [] ∨ bytesPrefixLimit (dataKey p []) = some lim := by
+    simp only [Bucket.iterBounds, Bucket.innerKeyForIterator, hb.path, List.length_nil, BEq.rfl, if_true] at hl
+    have hd : pathBytes p ++ [sep] = dataKey p [] := rfl
+    rw [hd] at hl
+    cases hbl : bytesPrefixLimit (dataKey p []) with
+    | none => rw [hbl] at hl; simp [clampLimit] at hl
+    | some x =>
+      rw [hbl] at hl
+      simp only [clampLimit] at hl
+      by_cases hc : blt x (dataKey p []) = true
+      · simp only [hc, if_true, Option.some.injEq] at hl; exact Or.inl hl.symm
+      · simp only [hc, Bool.false_eq_true, if_false, Option.some.injEq] at hl; right; rw [hl]
+  intro e he
+  rw [SMap.mem_range] at he
+  obtain ⟨_, hlo, hhi⟩ := he
+  simp only at hhi
+  rcases hlim with hlim | hlim
+  · -- empty range: start ≤ k < start is impossible
+    rw [hlim] at hhi
+    have := blt_of_ble_of_blt hlo hhi
+    rw [blt_irrefl] at this; cases this
+  · have hpre : dataKey p [] <+: e.1 := by
+      rw [← inRange_bytesPrefix_iff, hlim]
+      exact ⟨hlo, hhi⟩
+    have hnone : tx.b.puts.get e.1 = none ∧ tx.b.deletes.get e.1 = none := by
+      have hcontra : ¬ ((tx.b.puts.get e.1).isSome = true ∨ (tx.b.deletes.get e.1).isSome = true) := by
+        intro ht
+        rcases hk e.1 ht with ⟨q, kk, hq, hne, heq⟩ | ⟨s0, heq⟩
+        · rw [heq] at hpre
+          exact hne ((dataKey_prefix_iff hq hb.noSep [] kk).mp hpre).1
+        · rw [heq] at hpre
+          exact dataPrefix_not_prefix_indexKey p [] s0 hpre
+      constructor
+      · cases hg : tx.b.puts.get e.1 with
+        | none => rfl
+        | some x => exact absurd (Or.inl (by rw [hg]; rfl)) hcontra
+      · cases hg : tx.b.deletes.get e.1 with
+        | none => rfl
+        | some x => exact absurd (Or.inr (by rw [hg]; rfl)) hcontra
+    unfold Batch.get
+    rw [hnone.1, hnone.2]
 
 end MW.Model.KV
